@@ -44,7 +44,55 @@ def _anchored_end(p: str) -> bool:
     return p.endswith("\\Z") or p.endswith("$")
 
 
+def check_token_construction(run: Run, rule: str) -> None:
+    """binds the tokenizer model to tokenize(): a text matched by pattern #i becomes a token of exactly that pattern's type, and a
+    scanned identifier becomes an IDENTIFIER token carrying exactly the scanned text (no retyping / rewriting afterwards)"""
+    import ast
+
+    from .source import norm, walk_no_nested
+
+    lx = run.project.mod("core.lexer")
+    fi = lx.func("tokenize")
+    scan_var = None
+    for n in walk_no_nested(fi.node):
+        if isinstance(n, ast.Assign) and isinstance(n.value, ast.Call) and ast.unparse(n.value.func) == "_match_unicode_identifier" and isinstance(n.targets[0], ast.Name):
+            scan_var = n.targets[0].id
+    if scan_var is None:
+        raise AnalysisError("tokenize: call of _match_unicode_identifier not found")
+    branch = None
+    for n in walk_no_nested(fi.node):
+        if isinstance(n, ast.If) and isinstance(n.test, ast.Name) and n.test.id == scan_var:
+            branch = n
+    if branch is None:
+        raise AnalysisError(f"tokenize: `if {scan_var}:` branch not found")
+    toks = [c for st in branch.body for c in ast.walk(st) if isinstance(c, ast.Call) and ast.unparse(c.func) == "Token"]
+    ok = len(toks) == 1 and len(toks[0].args) >= 2 and ast.unparse(toks[0].args[0]) == "TokenType.IDENTIFIER" and isinstance(toks[0].args[1], ast.Name) and toks[0].args[1].id == scan_var
+    rebinding = [n for st in branch.body for n in ast.walk(st) if isinstance(n, ast.Subscript) and isinstance(n.ctx, ast.Store) and ast.unparse(n.value) == "tokens"]
+    rebinding += [n for st in branch.body for n in ast.walk(st) if isinstance(n, ast.Name) and isinstance(n.ctx, ast.Store) and n.id == scan_var]
+    run.instance(rule, lx.loc(branch), f"tokenize: a scanned identifier becomes exactly Token(TokenType.IDENTIFIER, {scan_var}, ...)", ok=ok and not rebinding)
+    if not (ok and not rebinding):
+        bad = next((t for t in toks if not (len(t.args) >= 2 and ast.unparse(t.args[0]) == "TokenType.IDENTIFIER" and isinstance(t.args[1], ast.Name) and t.args[1].id == scan_var)), None) or (rebinding[0] if rebinding else branch.test)
+        run.violation(rule, lx, fi.qualname, bad, "after the identifier scanner succeeded, tokenize builds something other than one IDENTIFIER token with the scanned text (e.g. retypes True/NULL as BOOLEAN/NULL): "
+                      "strings the emitter leaves bare as identifiers are read back as another kind of value", line=getattr(bad, "lineno", branch.lineno))
+    # generic pattern branch: Token(token_type, value, ...) with the loop's own token_type
+    loop = None
+    for n in walk_no_nested(fi.node):
+        if isinstance(n, ast.For) and isinstance(n.target, ast.Tuple) and len(n.target.elts) == 2 and ast.unparse(n.iter) == "compiled_patterns":
+            loop = n
+    if loop is None:
+        raise AnalysisError("tokenize: loop over compiled_patterns not found")
+    tvar = loop.target.elts[1].id  # type: ignore[attr-defined]
+    toks = [c for c in ast.walk(loop) if isinstance(c, ast.Call) and ast.unparse(c.func) == "Token"]
+    ok = len(toks) == 1 and toks[0].args and isinstance(toks[0].args[0], ast.Name) and toks[0].args[0].id == tvar
+    retype = [n for n in ast.walk(loop) if isinstance(n, ast.Name) and isinstance(n.ctx, ast.Store) and n.id == tvar and n is not loop.target.elts[1]]  # type: ignore[attr-defined]
+    run.instance(rule, lx.loc(loop), f"tokenize: text matched by a pattern becomes a token of that pattern's own type (`Token({tvar}, ...)`, {tvar} never rebound)", ok=bool(ok) and not retype)
+    if not (ok and not retype):
+        bad = retype[0] if retype else (toks[0] if toks else loop)
+        run.violation(rule, lx, fi.qualname, bad, "the token type of a pattern match is changed after matching: the token table no longer describes what the tokenizer produces", line=getattr(bad, "lineno", loop.lineno))
+
+
 def check_bare(run: Run, rule: str, lm: LexModel, em_mod) -> None:
+    check_token_construction(run, rule)
     A = lm.alphabet
     assert A is not None
     langs = bare_languages(lm)
